@@ -112,6 +112,8 @@ def make_target(t):
         src = 'class Stub(object):\n    def %s(self%s):\n        EVALS.append(1)\n        return 0\n' % (name, (', ' + pl) if pl else '')
         if t.get('falsy'):        # an instance that is false in a boolean context (an empty container, a zero, ...)
             src += '    def __len__(self):\n        return 0\n'
+        if t.get('hasargs'):      # an instance that happens to have an attribute called args (like every exception)
+            src += '    args = (5, 6)\n'
 
         ns = {'EVALS': EVALS, '__name__': 'harness_valid_stubs'}
         exec(src, ns)
@@ -135,9 +137,11 @@ def make_target(t):
 def run_target(klepto, t, calls):
     f, desc = make_target(t)
     events = []
+    VALS = [1, None, 0, '', 2.5]        # (validity does not depend on the values: falsy and None values on purpose)
     for c in calls:
-        args = [1] * c['np']
-        kwds = {n: 1 for n in c['k']}
+        ci = c['np'] * 3 + len(c['k'])       # (a function of the call itself, so that a replayed case uses the same values)
+        args = [VALS[(ci + j) % len(VALS)] for j in range(c['np'])]
+        kwds = {n: VALS[(ci + j + 2) % len(VALS)] for j, n in enumerate(c['k'])}
         del EVALS[:]
         try:
             f(*args, **kwds)
@@ -170,6 +174,7 @@ def _run_chunk(job):
     out += [run_target(klepto, dict(t, wraps=True), calls) for t in targets if t['kind'] == 'func']
     # bound methods and callable instances once more with an instance that is falsy
     out += [run_target(klepto, dict(t, falsy=True), calls) for n, t in enumerate(targets) if t['kind'] != 'func' and n % 2 == 0]
+    out += [run_target(klepto, dict(t, hasargs=True), calls) for n, t in enumerate(targets) if t['kind'] == 'callable' and n % 2 == 1]
     return out
 
 
@@ -191,7 +196,7 @@ def signature(t, v):
     return {'engine': 'valid', 'clauses': v[1], 'kind': tg['kind'], 'partial': tg['partial'], 'wraps': bool(tg.get('wraps')),
             'partial_over_bound': bool(tg['partial'] and tg['kind'] != 'func'),
             'kwonly': bool(kon), 'varargs': tg['sig']['va'], 'varkw': tg['sig']['vk'],
-            'posonly': any(p.get('po') for p in tg['sig']['pos']), 'falsy_instance': bool(tg.get('falsy')),
+            'posonly': any(p.get('po') for p in tg['sig']['pos']), 'falsy_instance': bool(tg.get('falsy')), 'instance_has_args': bool(tg.get('hasargs')),
             # a partial that fixes a KEYWORD named like a positional-only parameter of the function
             'partial_kw_posonly': bool(tg['partial']) and any(n in {p['n'] for p in tg['sig']['pos'] if p.get('po')} for n in tg['pk']),
             'isvalid': e['isvalid'], 'validate': e['validate'], 'actual': e['actual']}
